@@ -180,6 +180,7 @@ void setup(Handler& ah, Dest& d, int cfg, int part /* 0 = all, 1/2 = halves for 
                    ah.addArgument("a,alpha", DEST_VAR(d.a), "alpha"); ah.addArgument("b,beta", DEST_VAR(d.b), "beta"); ah.addConstraint(all_of("-a,--alpha;-b")); }
    } else if (cfg == 20) {
       // constraints over short-only keys written with their dash
+      if (part == 2) { ah.addArgument("f,flag", DEST_VAR(d.f), "flag"); return; }
       ah.addArgument("a", DEST_VAR(d.a), "a"); ah.addArgument("b", DEST_VAR(d.b), "b"); ah.addConstraint(all_of("-a;-b"));
       ah.addArgument("p", DEST_VAR(d.p), "p"); ah.addArgument("q", DEST_VAR(d.q), "q"); ah.addConstraint(any_of("-p;-q"));
       ah.addArgument("x", DEST_VAR(d.x), "x"); ah.addArgument("y", DEST_VAR(d.y), "y"); ah.addConstraint(one_of("-x;-y"));
